@@ -107,12 +107,17 @@ func init() {
 			k.PAvail, k.PHole, k.POpt = 80, 60, 35
 			k.PreferAvailable = false
 			k.PInvokeAll = 92
-			k.NoDecorators = true // decorated keys with unavailable decorators are outside the claim
+			// decorators are present (a failure below a decorator must not be
+			// forgiven by an optional edge above it either); optional fields
+			// whose own key is decorated by an unavailable decorator are the
+			// property's carve-out and are excluded as a zone
+			k.WDecorate = 2
+			k.PDecoGroup = 10
 			k.MaxScopes = 5
-			k.NoFaults, k.PFault, k.PErr = false, 6, 30
+			k.NoFaults, k.PFault, k.PErr = false, 10, 35
 			return k
 		},
-		clauses: []string{CVerdictInvoke, CZeroAvailable, CZeroRequired, CNonZeroUnavail, CUnavailDirectRan},
+		clauses: []string{CVerdictInvoke, CZeroAvailable, CZeroRequired, CNonZeroUnavail, CUnavailDirectRan, CRootCause},
 		nt: func(l map[string]bool) bool {
 			return l["deep-hole"] || l["optional-above-hole"] || l["provider-not-visible"]
 		},
@@ -148,7 +153,7 @@ func init() {
 		rule: "tiny universes (2 concrete types + 2 interfaces, names {a,b}, groups {a,b}) so that collisions are the norm, names/groups via option and via tag at any nesting, As lists, several scopes; non-trivial = at least one duplicate-key attempt and at least one As, with an Invoke that succeeded and one that failed",
 		knobs: func() Knobs {
 			k := DefaultKnobs()
-			k.Types = []string{"T0", "T2"}
+			k.Types = []string{"T0", "T2", "L0"}
 			k.Ifaces = []string{"I1", "I2"}
 			k.Names = []string{"a", "b"}
 			k.Groups = []string{"a", "b"}
@@ -222,6 +227,9 @@ func init() {
 			k.WDecorate = 9
 			k.WProvide = 9
 			k.PDecoGroup, k.PDecoMulti, k.PDecoExtra = 30, 35, 35
+			// some failures too: a decorator whose first run was aborted
+			// must still be applied afterwards
+			k.NoFaults, k.PFault, k.PErr, k.PPanic, k.PRecover = false, 8, 35, 50, 40
 			k.Types = []string{"T0", "T1", "T2", "S0"}
 			k.Ifaces = []string{"I0"}
 			k.Names = []string{"a"}
